@@ -5,6 +5,9 @@ pub mod c03;
 pub mod c04;
 pub mod c05;
 pub mod c06;
+pub mod c09;
+pub mod c10;
+pub mod c16;
 
 use crate::engine::Ctx;
 use common::AnySub;
@@ -32,5 +35,8 @@ pub fn registry() -> Vec<Prop> {
         Prop { id: "C04", rule: c04::RULE, subs: c04::subs, assumptions: &[], extra: None },
         Prop { id: "C05", rule: c05::RULE, subs: c05::subs, assumptions: &[], extra: None },
         Prop { id: "C06", rule: c06::RULE, subs: c06::subs, assumptions: &[], extra: None },
+        Prop { id: "C09", rule: c09::RULE, subs: c09::subs, assumptions: &[], extra: None },
+        Prop { id: "C16", rule: c16::RULE, subs: c16::subs, assumptions: &[], extra: None },
+        Prop { id: "C10", rule: c10::RULE, subs: c10::subs, assumptions: &[], extra: Some(c10::extra) },
     ]
 }
